@@ -32,3 +32,24 @@ Theorem C12_writer_applies_options_like_validation : forall m, wf_msg m ->
   verify m = Accept -> Model.Writer.writer_check m = Accept.
 Proof. exact writer_never_refuses_valid. Qed.
 Print Assumptions C12_writer_applies_options_like_validation.
+
+(* the HTTP query parameters: each parameter switches its own option and nothing else; the model of
+   validateOptsFromQuery is tied to the source by the obligation below and by stream l6-http *)
+From Wire Require Model.Server.
+From WireGen Require Handlers.
+
+Definition param_on (v : option bytes) : bool :=
+  match v with Some x => match Server.parse_bool x with Some true => true | _ => false end | None => false end.
+
+Theorem C12_query_parameters_select_their_own_option : forall sk al,
+  Handlers.validate_opts_recognised = true /\
+  match Server.query_opts sk al with
+  | Some (s, a) => s = param_on sk /\ a = param_on al /\ (s = true \/ a = true)
+  | None => param_on sk = false /\ param_on al = false
+  end.
+Proof.
+  intros sk al. split; [vm_compute; reflexivity|].
+  unfold Server.query_opts. fold (param_on sk). fold (param_on al).
+  destruct (param_on sk), (param_on al); cbn; auto.
+Qed.
+Print Assumptions C12_query_parameters_select_their_own_option.
